@@ -63,7 +63,7 @@ def classify(tok):
     if isnum and (tok[0].isdigit() or tok[0] in '+-'):
         if '.' not in tok:
             return 'enum'       # exponent notation without a decimal point (`5E-1`): not an int, but no '.' either
-        return 'big' if abs(v) > 4.0 else 'num'
+        return 'big' if v > 4.0 else 'num'       # the code's test is float(y) > 4.0: a negative code is not 'big'
     if tok[0].isdigit() or tok[0] in '+-':
         return 'sym'
     return 'word'
@@ -620,6 +620,16 @@ def valid_cases(tab, suffixes=('',)):
             t2 = toks[:1] + [respell_number(t, how) for t in toks[1:]]
             if [classify(t) for t in t2] == [classify(t) for t in toks]:
                 out.append(dict(stream='valid', kw='C9', toks=t2, pos='atomline', spell='numbers=' + how))
+    # a coordinate fixed at a negative value through a free variable (`-10.25`, `-30.25`: m = -1 … -3, the by-construction
+    # file defines three): the handler books the usage of free variable |m|, also of the last one defined
+    for kinds in tab['atoms']:
+        if len(kinds) in (6, 11) and 'big' not in kinds[1:4]:
+            toks = atom_tokens(kinds)
+            for j in (1, 2, 3):
+                for m in (1, 2, 3):
+                    t2 = list(toks)
+                    t2[j] = '-%d0.25000' % m
+                    out.append(dict(stream='valid', kw='C9', toks=t2, pos='atomline', spell='coordinate=negative-code'))
     # FRAG ... FEND blocks
     for head in (['FRAG'], ['FRAG', '17'], ['FRAG', '17', '1', '1', '1', '90', '90', '90'], ['FRAG', '17', '7.5', '8.5', '9.5', '90', '95.5', '90']):
         for coords in (['0.1', '0.2', '0.3'], ['1.25', '-2.5', '0.75'], ['5.25', '-6.5', '0.75']):
